@@ -7,7 +7,7 @@
     All theorems quantify over EVERY label list = every client program (any number of handlers,
     RunHandlers / Stop / Close / Run calls and threads) and every schedule. *)
 From WM Require Import Base.Prelude Base.Count RouterLife.Model RouterLife.Monitor RouterLife.Inv
-                       RouterLife.ProofsA RouterLife.ProofsB RouterLife.ProofsW RouterLife.SelfClose RouterLife.Term RouterLife.Local RouterLife.AcceptN RouterLife.Accept RouterLife.Theorems RouterLife.Witness.
+                       RouterLife.ProofsA RouterLife.ProofsB RouterLife.ProofsW RouterLife.SelfClose RouterLife.Term RouterLife.Persist RouterLife.PersistNil RouterLife.Local RouterLife.AcceptN RouterLife.Accept RouterLife.Theorems RouterLife.Witness.
 
 (** Running() closed => each of the [run_n] handlers registered when Run's RunHandlers took
     handlersLock is started and holds its (one) subscription - unless a Close BEFORE that Run
@@ -297,6 +297,28 @@ Theorem C10_self_close : forall f16 ls0 ls K s',
       exists ok, mainp s' = RDone ok).
 Proof. exact self_close_terminates. Qed.
 Print Assumptions C10_self_close.
+
+(** C10_self_close with its premise at the START of the internal run: "every added handler's goroutine is past Done"
+    (>= 1 handler), resp. "the Run context is cancelled and every handler follows it", persists along every internal
+    label ([step_persist]), so: from such a reachable state every run of internal labels has at most [mu K s] steps and
+    when it cannot be extended Run has returned. *)
+Theorem C10_self_close_from_start : forall f16 ls0 ls K s',
+  let s := run (rinit true true true f16) ls0 in
+  tbounded K s -> irun s ls = Some s' -> mainp s <> RNone ->
+  (0 < nexth s /\ all_past_done s) \/ (cctx s = true /\ all_follow_ctx s) ->
+  length ls <= mu K s /\ (~ can_move s' -> exists ok, mainp s' = RDone ok).
+Proof. exact self_close_from_start. Qed.
+Print Assumptions C10_self_close_from_start.
+
+(** ... and Run returns NIL when no Subscribe failed anywhere in the history of the run. *)
+Theorem C10_self_close_returns_nil : forall f16 ls0 ls K s',
+  let s := run (rinit true true true f16) ls0 in
+  tbounded K s -> irun s ls = Some s' -> mainp s <> RNone ->
+  (0 < nexth s /\ all_past_done s) \/ (cctx s = true /\ all_follow_ctx s) ->
+  no_failed (hist (rinit true true true f16) (ls0 ++ ls)) ->
+  length ls <= mu K s /\ (~ can_move s' -> mainp s' = RDone true).
+Proof. exact self_close_returns_nil. Qed.
+Print Assumptions C10_self_close_returns_nil.
 
 (** the hypotheses are satisfiable and the behaviour is non-trivial *)
 Example C10_running_reachable :
